@@ -180,3 +180,35 @@ Proof.
     assert (Ht : ((1 # 1000000) + (1 # 100000) * Qabs 1 == 11 # 1000000)%Q) by reflexivity.
     rewrite Ht. split; [intros H; split; [reflexivity | exact H] | intros [_ H]; exact H].
 Qed.
+
+(** finite search: a boolean test over [i < n] either always holds or fails somewhere *)
+Lemma bounded_bool_dec (f : nat -> bool) n :
+  (forall i, i < n -> f i = true) \/ (exists i, i < n /\ f i = false).
+Proof.
+  induction n as [|n IH]; [left; intros i H; lia|].
+  destruct IH as [H|[i [Hi Hf]]]; [|right; exists i; split; [lia | exact Hf]].
+  destruct (f n) eqn:E; [left | right; exists n; split; [lia | exact E]].
+  intros i Hi. destruct (Nat.eq_dec i n) as [->|Hn]; [exact E | apply H; lia].
+Qed.
+
+(** refusal, in the "some input ..." form *)
+Lemma not_mergeable_iff unitv dim ims d :
+  ~ mergeable unitv dim ims d <->
+  (exists i, i < length ims /\ orient_okb unitv dim (iaff (nth 0 ims d)) (iaff (nth i ims d)) = false) \/
+  (dim < 3 /\ exists i, S i < length ims /\
+                        bad_step unitv dim (iaff (nth i ims d)) (iaff (nth (S i) ims d)) = true).
+Proof.
+  split.
+  - intros Hn.
+    destruct (bounded_bool_dec (fun i => orient_okb unitv dim (iaff (nth 0 ims d)) (iaff (nth i ims d))) (length ims))
+      as [Ho|[i [Hi Hf]]]; [|left; exists i; split; assumption].
+    destruct (Nat.lt_ge_cases dim 3) as [Hd|Hd].
+    + destruct (bounded_bool_dec (fun i => negb (bad_step unitv dim (iaff (nth i ims d)) (iaff (nth (S i) ims d))))
+                                 (length ims - 1)) as [Hs|[i [Hi Hf]]].
+      * exfalso. apply Hn. split; [exact Ho|]. intros _ i Hi. apply negb_true_iff, Hs. lia.
+      * right. split; [exact Hd|]. exists i. split; [lia|]. apply negb_false_iff, Hf.
+    + exfalso. apply Hn. split; [exact Ho|]. intros Hd'. lia.
+  - intros [[i [Hi Hf]]|[Hd [i [Hi Hf]]]] [Ho Hs].
+    + rewrite (Ho i Hi) in Hf. discriminate.
+    + rewrite (Hs Hd i Hi) in Hf. discriminate.
+Qed.
